@@ -186,6 +186,12 @@ for _k, _t in ADDENDA.items():
     _i = max(_l.rfind(' Does not decide'), _l.rfind(' The merged value itself'))
     TEXTS[_k]['level'] = (_l[:_i] + ' ' + _t + _l[_i:]) if _i > 0 else (_l + ' ' + _t)
 ADDENDA_END = {
+    'C02': "The int view is decided by evaluating the conversion once per region of the doubles (TAB7), not by matching a template.",
+    'C07': "OWN10: nothing is written into text a node only borrows; REFC: a half-built reference node is never released as an owner.",
+    'C09': "OUT1 accepts a direct write only behind a room test the code makes itself, against the bound of the bytes written.",
+    'C11': "SHP4: the duplicator evaluated over every kind of node and short containers (bounded): no payload is left out for any kind.",
+    'C16': "ESC4: a decoded name is never read as a pointer token again.",
+    'C18': "MRG5: null members are pruned from objects only, never inside arrays of the patch.",
     'C12': "NUM4: compare_double over all pairs of operand classes of IEEE doubles - NaN equals nothing, infinity equals neither a finite number nor the other infinity, zero equals zero.",
     'C04': "NUM4: the comparison print_number relies on to accept the short rendering does not take an infinite read-back for equal to a finite number (the DBL_MAX case named in the property).",
     'C15': "PTR1: the resolver hands back an element only on paths where the whole pointer text was used (byte-path engine): text that does not begin with '/' designates nothing.",
